@@ -277,6 +277,24 @@ def run(ctx: Ctx, tier: str) -> Result:
                     if tt[0] in ("bound", "func") and tt[1] in p.functions:
                         cb = p.functions[tt[1]]
                         ncb += 1
+                        # a finished task takes *its own* entry out of the pending map: the key is the id this submission was
+                        # registered under (a local of the submission / an argument bound to the callback), not the handler's
+                        # running counter - which by then is the id of a later, still running task
+                        for n_ in t.nodes_in(cb):
+                            key_ = None
+                            if isinstance(n_, ast.Delete):
+                                for tg_ in n_.targets:
+                                    if isinstance(tg_, ast.Subscript) and "_pending" in norm(tg_.value):
+                                        key_ = tg_.slice
+                            elif isinstance(n_, ast.Call) and isinstance(n_.func, ast.Attribute) and n_.func.attr == "pop" and "_pending" in norm(n_.func.value) and n_.args:
+                                key_ = n_.args[0]
+                            if key_ is None:
+                                continue
+                            if isinstance(key_, ast.Name):
+                                res.ok("C09.C", {"finished task removes its own entry": norm(key_)})
+                            else:
+                                res.fail(Finding("C09.C", cb.qname, n_, cb.loc(n_), "the finished task removes the entry `%s` from the pending map, not the one it was registered under: when a "
+                                                 "later task has been accepted meanwhile that one's entry goes, and flush no longer waits for it" % norm(key_)[:40]))
                         bad = {tok: ch for tok, ch in g.escape_tokens(cb).items() if tok in ("BaseException",)}
                         if not bad:
                             res.ok("C09.C", {"completion callback lets no BaseException escape": cb.qname})
@@ -409,4 +427,6 @@ def run(ctx: Ctx, tier: str) -> Result:
         else:
             res.ok("C09.D", {"component handed to others is never replaced": fld})
     res.floor("components shared at construction", nshared, 2)
+    from .common import borrow
+    borrow(ctx, res, tier, "c14", ("C14.D",), "C09.D", "closing is part of every shutdown: the handler is flushed - and with that closed - whether or not something is pending")
     return res
